@@ -302,7 +302,11 @@ func ClusterStage(c *core.Ctx, what string, nb int, surveyed bool, fams []string
 	for _, mode := range modes {
 		for _, fam := range fams {
 			// design level: the invariants of the session model do not depend on where the clients connect
-			c.ModelCheck("MC_Session", strings.Replace(mcCfg(mode, fam, `{"c1","c2","c3"}`, 3, 2, "none", true), "NB = 1", fmt.Sprintf("NB = %d", nb), 1), tlc.Opts{})
+			cfg := strings.Replace(mcCfg(mode, fam, `{"c1","c2","c3"}`, 3, 2, "none", true), "NB = 1", fmt.Sprintf("NB = %d", nb), 1)
+			if surveyed {
+				cfg = strings.Replace(cfg, "Surveyed = FALSE", "Surveyed = TRUE", 1)
+			}
+			c.ModelCheck("MC_Session", cfg, tlc.Opts{})
 			for i, w := range SimulateN(c, mode, fam, num, depth, nb, rng) {
 				jobs = append(jobs, job{mode, w, i, fam})
 			}
